@@ -15,7 +15,7 @@ import tempfile
 from harness.lib import hx, cz, clist
 
 ID = 'C04'
-RULE = ('[sessions: several tables derived from one source, source/intermediate tables written after the derived ones; selections that keep first+last record and permute / repeat equal-length inner records] files of 1-5 records for BED/BED6/narrowPeak/VCF(VCFBuffer and VCFBuffer2, with and without genotype columns)/SAM '
+RULE = ('[fields looked at before a selection + attribute assignment; sessions: several tables derived from one source, source/intermediate tables written after the derived ones; selections that keep first+last record and permute / repeat equal-length inner records] files of 1-5 records for BED/BED6/narrowPeak/VCF(VCFBuffer and VCFBuffer2, with and without genotype columns)/SAM '
         '(0-3 optional tags)/GTF/FASTQ(+name lines)/two-line FASTA/BAM with non-canonical spellings (leading zeros, +5, 1e3), '
         'LF and CRLF; programs = trees of selections (slice, step incl. negative, mask, int list with repeats, single index), '
         'concatenations (2-3 operands), replacements of 1-3 fields and intermediate writes; exhaustive index-menu programs of '
@@ -346,6 +346,32 @@ def generate(tier, seed):
             shape = {'samples': rng.choice([1, 2])} if fmt == 'vcf2' else {}
             f = _gen_file(fmt, rng, n, 'lf', **shape)
             cases.append(_gen_session(rng, fmt, f, n, rep))
+    # (5) fields that were LOOKED AT before (parsed and cached on the table), then a selection, then another field
+    #     assigned on the derived table (attribute assignment keeps the cache, bnp.replace drops it), then written
+    INTF = {'bed': ['start', 'stop'], 'bed6': ['start', 'stop'], 'np': ['start', 'stop', 'summit'], 'vcf': ['position'],
+            'vcf2': ['position'], 'sam': ['flag', 'position', 'mapq', 'next_position', 'length']}
+    for fmt in sorted(INTF):
+        for rep in range(4 if quick else 16):
+            n = rng.choice([2, 3, 4, 5])
+            shape = {'samples': rng.choice([1, 2])} if fmt == 'vcf2' else {}
+            f = _gen_file(fmt, rng, n, 'lf', **shape)
+            looked = rng.sample(INTF[fmt], min(len(INTF[fmt]), rng.choice([1, 2])))
+            p = ['src']
+            for nm in looked:
+                p = ['get', nm, p]
+            spec = _gen_index(rng, n) if rep % 2 else ['slice', None, None, None]
+            sel = _resolve(spec, n)
+            if not sel:
+                spec, sel = ['slice', None, None, -1], list(range(n))[::-1]
+            p = ['idx', spec, sel, p]
+            cand = [x for x in FIELDS[fmt] if x[1] not in looked]
+            j, name, kind = rng.choice(cand)
+            p = ['set' if rep % 4 != 3 else 'repl', j, name, kind, _values(rng, fmt, j, kind, len(sel)), p]
+            if rep % 3 == 0:
+                spec2 = _gen_index(rng, len(sel))
+                sel2 = _resolve(spec2, len(sel))
+                p = ['idx', spec2, sel2, p]
+            cases.append(_mk(f, p))
     return cases
 
 
@@ -397,6 +423,16 @@ def _gen_session(rng, fmt, f, n, variant):
 
 
 # ----------------------------------------------------------------------------- implementation runner
+def _has_raw(p, kinds):
+    if p[0] in kinds:
+        return True
+    if p[0] == 'cat':
+        return any(_has_raw(q, kinds) for q in p[1])
+    if p[0] in ('src', 'ref'):
+        return False
+    return _has_raw(p[-1], kinds)
+
+
 def _has(p, kinds):
     if p[0] in kinds:
         return True
@@ -457,6 +493,21 @@ def observe(case):
                 t = ev(p[1], src)
                 counter[0] += 1
                 write(t, 'scratch%d' % counter[0])
+                return t
+            if k == 'get':          # the user looks at a field (it is parsed and cached on the table); the table is unchanged
+                t = ev(p[2], src)
+                getattr(t, p[1])
+                return t
+            if k == 'set':          # attribute assignment on a freshly derived table: same meaning as bnp.replace
+                t = ev(p[5], src)
+                kind, vals = p[3], p[4]
+                if kind in ('int', 'int1'):
+                    v = np.array(vals, dtype=int)
+                elif kind == 'id':
+                    v = as_string_array(list(vals))
+                else:
+                    v = bnp.as_encoded_array(list(vals))
+                setattr(t, p[2], v)
                 return t
             if k == 'repl':
                 t = ev(p[5], src)
@@ -541,6 +592,21 @@ def _inline(p, progs):
     return list(p[:-1]) + [_inline(p[-1], progs)]
 
 
+def _norm(p):
+    """the program as the Coq model reads it: looking at a field changes nothing; attribute assignment = replace"""
+    k = p[0]
+    if k in ('src', 'ref'):
+        return p
+    if k == 'get':
+        return _norm(p[2])
+    if k == 'cat':
+        return ['cat', [_norm(q) for q in p[1]]]
+    q = list(p[:-1]) + [_norm(p[-1])]
+    if k == 'set':
+        q[0] = 'repl'
+    return q
+
+
 def _subcases(case, o):
     """per written table: (the case with that table's program, references expanded; its observation)"""
     progs, writes = _session(case)
@@ -549,7 +615,7 @@ def _subcases(case, o):
         c = dict(case)
         c.pop('progs', None)
         c.pop('writes', None)
-        c['prog'] = _inline(progs[w], progs)
+        c['prog'] = _norm(_inline(progs[w], progs))
         ro = o['runs'][k] if isinstance(o, dict) and 'runs' in o and k < len(o['runs']) else dict(error='missing')
         out.append((c, ro))
     return out
@@ -719,6 +785,10 @@ def _show(p):
         return 't'
     if k == 'ref':
         return 't%d' % p[1]
+    if k == 'get':
+        return 'looked_at(%s, .%s)' % (_show(p[2]), p[1])
+    if k == 'set':
+        return 'assigned(%s, .%s=%r)' % (_show(p[5]), p[2], p[4])
     if k == 'idx':
         s = p[1]
         if s[0] == 'slice':
@@ -792,7 +862,9 @@ def distribution(cases, obs):
     d['sessions_with_several_written_tables'] = 0
     for c, o in zip(cases, obs):
         progs, writes = _session(c)
-        full = [_inline(p, progs) for p in progs]
+        raw = [_inline(p, progs) for p in progs]
+        d['with_field_read_or_assignment'] = d.get('with_field_read_or_assignment', 0) + any(_has_raw(p, ('get', 'set')) for p in raw)
+        full = [_norm(p) for p in raw]
         d['fmt'][c['fmt']] = d['fmt'].get(c['fmt'], 0) + 1
         d['crlf'] += any(r['eol'] == 'crlf' for r in c['recs'])
         d['with_concat'] += any(_has(p, ('cat',)) for p in full)
